@@ -6,6 +6,7 @@ CONSTANTS
 INVARIANT MarkDom
 INVARIANT MarkBase
 INVARIANT MarkEdges
+INVARIANT MarkExcl
 INVARIANT MarkFinal
 POSTCONDITION Accepted
 CHECK_DEADLOCK FALSE
